@@ -34,7 +34,8 @@ Fresh(cid) == [cid |-> cid,
                wr |-> {},             \* goroutine roles inside Tunnel.Write
                cur |-> 0,             \* type of the packet the loop is handling (0 = none)
                prog |-> 0,            \* how far the packets RECEIVED so far got through handshake(1), tunnel create(4), tunnel auth(6)
-               user |-> ""]           \* the user the tunnel acts for ("" = nobody yet)
+               user |-> "",           \* the user the tunnel acts for ("" = nobody yet)
+               resp |-> 0]            \* packets the loop has written to the client since it took up the current packet (capped at 2)
 
 VARIABLES st,       \* tunnel object -> record
           regBusy   \* tunnel objects inside RegisterTunnel / RemoveTunnel
@@ -103,18 +104,25 @@ Eff_Reading(u) == [st[u] EXCEPT !.loop = "reading"]
 Pre_Read(u) == If(st[u].loop = "reading", "G_C08_OneReaderPerTunnel")
 Eff_Read(u) == [st[u] EXCEPT !.loop = "idle"]
 \* packet types of MS-TSGU as the loop sees them
-T_HS == 1  T_CREATE == 4  T_AUTH == 6  T_CHAN == 8  T_DATA == 10
+T_HS == 1  T_CREATE == 4  T_AUTH == 6  T_CHAN == 8  T_DATA == 10  T_KEEPALIVE == 13  T_CLOSE == 16
+\* a request packet is answered by exactly one packet before the next one is taken up; data, keepalives and unknown
+\* types are not answered at all; a tunnel that ends while handling a packet has sent at most one packet for it
+Requests == {T_HS, T_CREATE, T_AUTH, T_CHAN}
+Answered(t) == IF t \in Requests THEN 1 ELSE 0
+Unanswered == {T_DATA, T_KEEPALIVE}
 NextProg(pr, t) == IF (pr = 0 /\ t = T_HS) \/ (pr = 1 /\ t = T_CREATE) \/ (pr = 2 /\ t = T_AUTH) THEN pr + 1 ELSE pr
 Pre_Recv(u, t) == If(st[u].loop = "idle", "G_C08_OneReaderPerTunnel")
-Eff_Recv(u, t) == [st[u] EXCEPT !.loop = "handling", !.cur = t, !.prog = NextProg(@, t)]
+Eff_Recv(u, t) == [st[u] EXCEPT !.loop = "handling", !.cur = t, !.prog = NextProg(@, t), !.resp = 0]
 \* the user the tunnel acts for when a packet arrives (usr, "?" = not reported) is the one it was opened as.  The one
 \* place where it is set again is the tunnel request (its access cookie names the user): a change can show at the packet
 \* that follows a tunnel request received in order (prog = 2), never later and never before
 Pre_RecvAs(u, t, usr) == Pre_Recv(u, t) \cup If(usr \in {"?", st[u].user} \/ st[u].prog = 2, "G_C05_TunnelUserIsTheConfirmedOne")
 Eff_RecvAs(u, t, usr) == [Eff_Recv(u, t) EXCEPT !.user = IF usr = "?" THEN @ ELSE usr]
 Pre_Step(u) == If(st[u].loop = "handling", "G_C08_OneReaderPerTunnel")
+               \cup If(st[u].loop = "handling" => (st[u].cur # T_CLOSE /\ st[u].resp = Answered(st[u].cur)), "G_C16_OneResponsePerRequestPacket")
 Eff_Step(u) == [st[u] EXCEPT !.loop = "idle", !.cur = 0]
 Pre_LoopExit(u) == If(st[u].loop \in {"none", "idle", "handling", "reading"} /\ st[u].h = "serving", "G_C11_LoopExitsOnce")
+                   \cup If(st[u].loop = "handling" => (st[u].resp <= 1 /\ (st[u].cur \in Unanswered => st[u].resp = 0)), "G_C16_OneResponsePerRequestPacket")
 Eff_LoopExit(u) == [st[u] EXCEPT !.loop = "exited"]
 
 \* host connection: attempted by the loop while it handles a packet, at most once per tunnel
@@ -145,7 +153,7 @@ Pre_WriteBegin(u, role) ==
   \cup If(role = "loop" => st[u].loop = "handling", "G_C16_ResponsesOnlyWhileHandling")
   \cup If(role = "relay" => (st[u].conn /\ st[u].relay = "running"), "G_C01_RelayOnlyAfterConnect")
   \cup If(role \in {"loop", "relay"}, "G_C09_OneWriterPerClient")
-Eff_WriteBegin(u, role) == [st[u] EXCEPT !.wr = @ \cup {role}]
+Eff_WriteBegin(u, role) == [st[u] EXCEPT !.wr = @ \cup {role}, !.resp = IF role = "loop" /\ @ < 2 THEN @ + 1 ELSE @]
 Pre_WriteEnd(u, role) == If(role \in st[u].wr, "G_C09_OneWriterPerClient")
 Eff_WriteEnd(u, role) == [st[u] EXCEPT !.wr = @ \ {role}]
 
@@ -180,8 +188,10 @@ RegBegin(u) == /\ st[u].h = (IF st[u].tr = "ws" THEN "open" ELSE "drained") /\ s
 RegEnd(u) == st[u].h = "registering" /\ Pre_RegEnd(u) = {} /\ st' = Put(u, Eff_RegEnd(u)) /\ regBusy' = regBusy \ {u}
 Reading(u) == st[u].h = "serving" /\ st[u].loop \in {"none", "idle"} /\ Take(Pre_Reading(u), u, Eff_Reading(u))
 Read(u) == st[u].loop = "reading" /\ Take(Pre_Read(u), u, Eff_Read(u))
-Recv(u) == st[u].loop = "idle" /\ \E t \in {T_HS, T_CREATE, T_AUTH, T_CHAN, T_DATA, 13} : Take(Pre_RecvAs(u, t, st[u].user), u, Eff_RecvAs(u, t, st[u].user))
-Step(u) == st[u].loop = "handling" /\ st[u].wr \cap {"loop"} = {} /\ Take(Pre_Step(u), u, Eff_Step(u))
+Recv(u) == st[u].loop = "idle" /\ \E t \in {T_HS, T_CREATE, T_AUTH, T_CHAN, T_DATA, T_KEEPALIVE, T_CLOSE} : Take(Pre_RecvAs(u, t, st[u].user), u, Eff_RecvAs(u, t, st[u].user))
+Step(u) == /\ st[u].loop = "handling" /\ st[u].wr \cap {"loop"} = {}
+           /\ st[u].cur # T_CLOSE /\ st[u].resp = Answered(st[u].cur)
+           /\ Take(Pre_Step(u), u, Eff_Step(u))
 \* the loop ends: a read failed (client gone), a packet was refused, or a close was answered
 LoopExit(u) == st[u].h = "serving" /\ st[u].loop \in {"idle", "handling"} /\ st[u].wr \cap {"loop"} = {} /\ Take(Pre_LoopExit(u), u, Eff_LoopExit(u))
 Dial(u) == st[u].loop = "handling" /\ st[u].dials = 0 /\ st[u].cur = T_CHAN /\ st[u].prog = 3 /\ Take(Pre_Dial(u), u, Eff_Dial(u))
@@ -192,7 +202,8 @@ RelayRead(u) == st[u].conn /\ st[u].relay \in {"none", "running"} /\ "relay" \no
 \* the relay ends when its read from the host fails: the host hung up, or the loop closed the connection on its way out
 RelayExit(u) == st[u].conn /\ st[u].relay \in {"none", "running"} /\ "relay" \notin st[u].wr /\ Take(Pre_RelayExit(u), u, Eff_RelayExit(u))
 WriteBegin(u, role) == /\ role \notin st[u].wr
-                       /\ (role = "loop" => st[u].loop = "handling") /\ (role = "relay" => st[u].relay = "running")
+                       /\ (role = "loop" => (st[u].loop = "handling" /\ st[u].resp = 0 /\ st[u].cur \in Requests \cup {T_CLOSE}))
+                       /\ (role = "relay" => st[u].relay = "running")
                        /\ Take(Pre_WriteBegin(u, role), u, Eff_WriteBegin(u, role))
 WriteEnd(u, role) == role \in st[u].wr /\ Take(Pre_WriteEnd(u, role), u, Eff_WriteEnd(u, role))
 UnregBegin(u) == /\ st[u].h = "serving" /\ st[u].loop = "exited"
@@ -226,6 +237,8 @@ ConnectionNeedsTheSteps == \A u \in DOMAIN st : st[u].dials > 0 => st[u].prog = 
 UserIsTheOneItWasOpenedAs == \A u \in DOMAIN st : st[u].user \in {"", UserOf(u)} /\ (st[u].loop # "none" => st[u].user = UserOf(u))
 \* C11: the registry holds exactly the tunnels that are being served
 RegCount(s) == Cardinality({x \in DOMAIN s : s[x].reg})
+\* C16
+ResponseDiscipline == \A u \in DOMAIN st : st[u].resp <= 1 /\ (st[u].cur \in Unanswered => st[u].resp = 0)
 \* C07
 PairingById == \A u \in DOMAIN st : st[u].cid = Cid(u)
 InOnlyAfterPublish == \A u \in DOMAIN st : (st[u].tr = "legacy" /\ st[u].h # "none") => st[u].out = "published"
